@@ -107,6 +107,11 @@ def crash_site(err):
     if m:
         fn = re.sub(r"^(p?)[sdcz](g|l|P|s)", r"\1?\2", m.group(4))
         return "%s@%s" % (m.group(1), fn)
+    m = re.search(r"runtime error: .*?#0 0x[0-9a-f]+ in (\w+)", err, flags=re.S)
+    if m:
+        fn = re.sub(r"^(p?)[sdcz](g|l|P|s|C)", r"\1?\2", m.group(1))
+        fn = re.sub(r"^superlu_[sdcz]", "superlu_?", fn)
+        return "UB@%s" % fn
     m = re.search(r"SUMMARY: \w+Sanitizer: (\S+)", err)
     if m:
         return m.group(1) + "@?"
